@@ -30,7 +30,9 @@ def hdf5_writer(filename, data, components=None):
 
     from h5py import File
 
-    f = File(filename, 'w')
+    # Keep track of the order in which the datasets are created, so that the
+    # components can be read back in the order in which they were exported
+    f = File(filename, 'w', track_order=True)
 
     for cid in data.main_components + data.derived_components:
 
